@@ -37,6 +37,13 @@ def render(obj):
             outputs['as_markdown'] = obj.as_markdown()
         except Exception as e:  # pylint: disable=broad-except
             outputs['as_markdown'] = ('raised', type(e).__name__, e)
+    else:
+        # objects that are not Serializable themselves are rendered the way a report holding them renders them
+        from cryptoparser.common.base import Serializable  # pylint: disable=import-outside-toplevel
+        try:
+            outputs['markdown_result'] = Serializable._markdown_result(obj)[1]  # pylint: disable=protected-access
+        except Exception as e:  # pylint: disable=broad-except
+            outputs['markdown_result'] = ('raised', type(e).__name__, e)
     return outputs
 
 
@@ -49,13 +56,93 @@ def digest_of(outputs):
     return hashlib.sha1(repr(sorted(comparable(outputs).items())).encode('utf-8', 'replace')).hexdigest()
 
 
+def serializable_objects(root, limit=60):
+    """Every object reachable from root that the library can render on its own: Serializable instances (also the
+    non-parsable ones such as X.509 public keys) and parsable objects, in a deterministic walk order."""
+    from cryptoparser.common.base import Serializable  # pylint: disable=import-outside-toplevel
+    from cryptoparser.common.parse import ParsableBaseNoABC  # pylint: disable=import-outside-toplevel
+    import enum  # pylint: disable=import-outside-toplevel
+    found, stack, seen = [], [root], set()
+    while stack and len(found) < limit:
+        current = stack.pop(0)
+        if id(current) in seen or isinstance(current, (str, bytes, bytearray, int, float, enum.Enum)) or current is None:
+            continue
+        seen.add(id(current))
+        if isinstance(current, (Serializable, ParsableBaseNoABC)):
+            found.append(current)
+        if isinstance(current, dict):
+            stack.extend(current.values())
+        elif isinstance(current, (list, tuple, set, frozenset)):
+            stack.extend(current)
+        elif type(current).__module__.split('.')[0] in ('cryptoparser', 'cryptodatahub'):
+            if attr.has(type(current)):
+                stack.extend(getattr(current, field.name, None) for field in attr.fields(type(current)))
+            stack.extend(getattr(current, '__dict__', {}).values())
+    return found
+
+
+def collection_families():
+    import cryptoparser.tls.version as version  # pylint: disable=import-outside-toplevel
+    from cryptodatahub.tls.version import TlsVersion  # pylint: disable=import-outside-toplevel
+    families = {'TlsProtocolVersion': lambda: [version.TlsProtocolVersion(member) for member in TlsVersion]}
+    for name, enum_class in list(inventory.int_enums().items())[:40] + list(inventory.string_enums().items())[:20]:
+        families[name.split(':')[1]] = (lambda cls=enum_class: list(cls))
+    return families
+
+
+def render_collection(collection):
+    from cryptoparser.common.base import Serializable  # pylint: disable=import-outside-toplevel
+    try:
+        return (json.dumps(collection), Serializable._markdown_result(collection)[1])  # pylint: disable=protected-access
+    except Exception as e:  # pylint: disable=broad-except
+        return ('raised', type(e).__name__)
+
+
 def child_main(argv):
-    """Child process: serialise the corpus objects listed in argv[0] (json file) and print digests."""
+    """Child process: serialise the corpus objects listed in argv[0] (json file) and print digests.
+    argv[1] (optional) = order seed: every renderable object reachable from the entries is rendered in an order
+    shuffled with that seed (history / arrival-order independence from a FRESH interpreter)."""
     bootstrap.init()
     with open(argv[0]) as handle:
         wanted = json.load(handle)
     classes = inventory.parsable_classes(concrete_only=False)
     result = {}
+    if len(argv) > 1 and argv[1] == '--collections':
+        for name, make in sorted(collection_families().items()):
+            for container in (set, frozenset):
+                try:
+                    result['%s|%s' % (container.__name__, name)] = hashlib.sha1(
+                        repr(render_collection(container(make()))).encode('utf-8', 'replace')).hexdigest()
+                except TypeError:
+                    continue
+        print('C14CHILD ' + json.dumps(result))
+        return
+    if len(argv) > 1:
+        jobs = []
+        for name, hex_data in wanted:
+            cls = classes.get(name)
+            try:
+                obj, _ = cls.parse_immutable(bytes.fromhex(hex_data))
+            except Exception:  # pylint: disable=broad-except
+                continue
+            for position, item in enumerate(serializable_objects(obj)):
+                jobs.append(('%s|%s|%d|%s' % (name, hashlib.sha1(hex_data.encode('ascii')).hexdigest()[:16], position, type(item).__name__), item))
+        # systematic arrival orders: in order number i the i-th object of every class is rendered first (rotation
+        # inside each class), so for up to <number of orders> objects per class every one of them gets to be the first
+        # of its class in some fresh interpreter; odd orders additionally reverse the class sequence
+        rotation = int(argv[1].rsplit('-', 1)[1])
+        by_class = {}
+        for key, item in jobs:
+            by_class.setdefault(type(item).__name__, []).append((key, item))
+        jobs = []
+        for class_name in sorted(by_class, reverse=bool(rotation % 2)):
+            members = by_class[class_name]
+            shift = rotation % len(members)
+            jobs.extend(members[shift:] + members[:shift])
+        for key, item in jobs:
+            result[key] = digest_of(render(item))
+        print('C14CHILD ' + json.dumps(result))
+        return
     for name, hex_data in wanted:
         cls = classes.get(name)
         try:
@@ -103,6 +190,13 @@ class Check(core.CheckBase):
             index += 1
             if self.mine(index):
                 yield {'kind': 'hashseed', 'block': block, 'blocks': blocks}
+        for block in range(blocks):
+            index += 1
+            if self.mine(index):
+                yield {'kind': 'freshorder', 'block': block, 'blocks': blocks}
+        index += 1
+        if self.mine(index):
+            yield {'kind': 'collections'}
 
     def judge(self, case):
         return getattr(self, 'judge_' + case['kind'])(case)
@@ -296,9 +390,118 @@ class Check(core.CheckBase):
             dedup.setdefault(violation.key, violation)
         return list(dedup.values())
 
+    def _class_block(self, case):
+        """All corpus entries of the classes that hash into this block (entries of one class stay together: an
+        arrival-order effect needs two objects of the same class), at most 8 (quick) / 40 per class."""
+        per_class = {}
+        for name, data in self.corpus:
+            if int(hashlib.sha1(name.encode('ascii')).hexdigest(), 16) % case['blocks'] == case['block']:
+                per_class.setdefault(name, []).append((name, data))
+        cap = 8 if self.tier == 'quick' else 40
+        return [entry for name in sorted(per_class) for entry in per_class[name][-cap:]]
+
+    def _children(self, case, variants, extra_args):
+        """Run one child per variant (env, argv suffix); returns {variant label: digests}."""
+        entries = self._class_block(case) if case['kind'] == 'freshorder' else self._block(case)
+        wanted = [[name, data.hex()] for name, data in entries]
+        scratch = os.path.join(bootstrap.WORK, 'c14-%s-%d-%d-%s.json' % (case['kind'], os.getpid(), case.get('block', 0), self.seed))
+        os.makedirs(bootstrap.WORK, exist_ok=True)
+        with open(scratch, 'w') as handle:
+            json.dump(wanted, handle)
+        results = {}
+        try:
+            for label, hash_seed in variants:
+                env = dict(os.environ, PYTHONHASHSEED=str(hash_seed))
+                try:
+                    proc = subprocess.run([sys.executable, '-c',
+                                           'import sys; sys.path.insert(0, %r); from vmon.checks import c14; '
+                                           'c14.child_main(sys.argv[1:])' % bootstrap.VERIF, scratch] + extra_args(label),
+                                          env=env, cwd=bootstrap.VERIF, capture_output=True, text=True, timeout=900)
+                except subprocess.TimeoutExpired:
+                    self.inconclusive.append('%s child timed out' % case['kind'])
+                    continue
+                line = [l for l in proc.stdout.splitlines() if l.startswith('C14CHILD ')]
+                if not line:
+                    self.inconclusive.append('%s child failed: %s' % (case['kind'], proc.stderr[-300:]))
+                    continue
+                results[label] = json.loads(line[0][len('C14CHILD '):])
+        finally:
+            try:
+                os.unlink(scratch)
+            except OSError:
+                pass
+        return results
+
+    def judge_freshorder(self, case):
+        """The same renderable objects, each child a fresh interpreter rendering them in another order."""
+        orders = ['order-%d' % i for i in range(8 if self.tier == 'quick' else 16)]
+        results = self._children(case, [(label, 0) for label in orders],
+                                 lambda label: ['C14/%s/%s/%s' % (self.seed, case['block'], label)])
+        found = []
+        labels = sorted(results)
+        for key in results.get(labels[0], {}) if labels else []:
+            values = set(results[label].get(key) for label in labels)
+            self.stats['freshorder_objects_compared'] += 1
+            if len(values) > 1:
+                parts = key.split('|')
+                found.append(self.violation('arrival-order-dependent|%s' % parts[-1],
+                                            'the rendering of a %s (inside %s) depends on which objects were rendered before it '
+                                            'in the same process' % (parts[-1], parts[0]), dict(case, object=key[:200])))
+        self.observe(('freshorder', case['block']), True, {'kind': 'freshorder', 'orders': labels,
+                                                           'objects': len(results.get(labels[0], {})) if labels else 0})
+        dedup = {}
+        for violation in found:
+            dedup.setdefault(violation.key, violation)
+        return list(dedup.values())
+
+    def judge_collections(self, case):
+        """Sets of library objects / enum members are reports too: their rendering must not depend on the insertion
+        order (in-process permutations) - the hash-seed side is covered by rendering the same sets in child processes."""
+        found = []
+        families = collection_families()
+        rng = random.Random('C14/collections/%s' % self.seed)
+        for name, make in sorted(families.items()):
+            reference = None
+            for attempt in range(6):
+                items = make()
+                if attempt:
+                    rng.shuffle(items)
+                for container in (set, frozenset):
+                    try:
+                        collection = container(items)
+                    except TypeError:
+                        continue
+                    self.stats['collections_rendered'] += 1
+                    rendered = render_collection(collection)
+                    key = (container.__name__, )
+                    if reference is None:
+                        reference = {}
+                    if key not in reference:
+                        reference[key] = rendered
+                    elif reference[key] != rendered:
+                        found.append(self.violation('insertion-order|set-of-%s' % name,
+                                                    'a %s of all %s renders differently when filled in another order' % (
+                                                        container.__name__, name), case))
+            self.observe(('collections', name), True, {'kind': 'collections', 'family': name})
+        # the same sets in fresh interpreters with other hash seeds
+        case_for_children = dict(case, block=0, blocks=10 ** 6)
+        results = self._children(case_for_children, [('hashseed-%d' % seed, seed) for seed in HASH_SEEDS[self.tier]],
+                                 lambda label: ['--collections'])
+        labels = sorted(results)
+        for key in results.get(labels[0], {}) if labels else []:
+            self.stats['collections_hashseed_compared'] += 1
+            if len(set(results[label].get(key) for label in labels)) > 1:
+                found.append(self.violation('hashseed-dependent|%s' % key.replace('|', '-of-'),
+                                            'a %s renders differently under another PYTHONHASHSEED' % key.replace('|', ' of all '), case))
+        dedup = {}
+        for violation in found:
+            dedup.setdefault(violation.key, violation)
+        return list(dedup.values())
+
     def floors(self):
         return {'objects_rendered': 1000, 'json_documents_accepted': 1000, 'enum_members_rendered': 300,
-                'history_renderings': 600, 'hashseed_objects_compared': 150, 'classes': 250}
+                'history_renderings': 600, 'hashseed_objects_compared': 150, 'classes': 250,
+                'freshorder_objects_compared': 300, 'collections_rendered': 200}
 
     def finish(self):
         return {'classes': sorted(self.notes.get('classes', set()))}
